@@ -248,17 +248,17 @@ for pid, txt, part in [
      ['C13_twice (a second merge of the same source is a no-op) is stated but not proved; proved in full: the self-merge clause (merge_self) and the third clause (C13_result_self_merge: the merge result merged back into itself), component-level idempotence']),
     ('C14', 'Kernel-checked for the whole merge, for every destination and source that are groups with pairwise distinct UUIDs below them: an entry both replicas hold has, wherever the merge leaves it, the content of the '
             'destination\'s version unless the source\'s modification time is strictly later, then the source\'s (C14_entry_last_writer_wins); the same for a group\'s own name / notes / icon / settings (C14_group_last_writer_wins); '
-            'with different modification times the entry\'s history represents every history item of both versions and the loser\'s uncommitted current version (C14_history_union); every source node without a tombstone in the '
+            'with different modification times the entry\'s history represents every history item of both versions and the loser\'s uncommitted current version (C14_history_union); it lives below the group that holds it in the source when the source moved it strictly later (and the merge reaches it outside every group the destination deleted), below the destination\'s otherwise (C14_entry_last_mover_wins, C14_entry_destination_move_stands); a node only the source holds is created below the group that holds it there (C14_created_under_same_parent); every history stays newest first without a time twice (C14_histories_sorted); every source node without a tombstone in the '
             'destination (for it or a group above it) is in the result or tombstoned there (C14_source_nodes_created), no destination node is lost (C14_destination_nodes_kept); component theorems (history union is sorted, '
             'duplicate-free and contains both sides; last-writer-wins for entries and groups). The flat last-writer-wins reference (MergeSpec) is evaluated on the real result of every enumerated pair.',
-     ['placement (an entry lives in the group chosen by whichever side moved it last, unless that lies under a group the destination deleted) is validated by the reference clauses on every enumerated pair, not proved; '
+     ['the placement theorems speak of the parent group, not of the whole path; '
       'C14_refines (faithful model = flat reference for all replica pairs) is stated but not proved']),
     ('C15', 'Kernel-checked for every destination that is a group with pairwise distinct UUIDs below it and every source: a node the destination has deleted is never re-created '
             '(C15_never_resurrects), no node of the result is both present and tombstoned (C15_no_node_present_and_tombstoned), the tombstone list only grows (prefix); an entry the destination holds and the source '
             'deleted is removed and tombstoned if one of the source\'s tombstones for it is later than its last modification in the destination, and stays untombstoned if none is (C15_entry_deleted_iff_newer, through the '
-            'whole merge); a node neither replica has a tombstone for stays (C15_untombstoned_node_stays); boundary deletion_time = mtime keeps the node; '
+            'whole merge); a group the source no longer holds stays while no tombstone for it is newer, and an empty one with a newer tombstone is removed and tombstoned (C15_group_kept_unless_newer, C15_empty_group_deleted_if_newer); a node neither replica has a tombstone for stays (C15_untombstoned_node_stays); boundary deletion_time = mtime keeps the node; '
             'the clauses (incl. deleted iff newer and empty, for groups) are evaluated on the real result of every enumerated pair.',
-     ['for groups, "deleted iff the deletion is newer and the group is empty once its deleted children are gone" is validated by enumeration in both tombstone orders, not proved (proved for entries: C15_entry_deleted_iff_newer); '
+     ['for a group that still has children which the same merge deletes, "deleted once its own deleted children are gone" is validated by enumeration in both tombstone orders, not proved (proved: entries, C15_entry_deleted_iff_newer, and empty groups, C15_group_kept_unless_newer with C15_empty_group_deleted_if_newer); '
       'an entry the source both still holds and has a tombstone for (not producible by the edit operations) is outside that theorem']),
     ('C16', 'Kernel-checked: C16_merge_terminates — the whole merge never exhausts the fuel of its only unbounded loop, for every destination that is a group with pairwise distinct UUIDs below it and every source (the group passes preserve that invariant: updates in place, moves, creations under UUIDs find_node_location did not find), the result is again such a tree and holds no node from nowhere; mergeDeletions_terminates — on a destination tree that is a group with pairwise distinct UUIDs, for every source, the work queue of merge_deletions '
             '(the only unbounded loop of merge; a group is re-queued while a child group is still queued) never exhausts the fuel (queue length + 1)^2 + 1: some queue element is always '
